@@ -474,22 +474,32 @@ class Session:
         """Extracts packets from session which together contain complete TLS_Records"""
         packet: Packet
         for packet in self.packet_buffer:
-            if packet.ip_src == self.server_ip and packet.sport == self.server_port:
-                self.server_packet_buffer.append(packet)
-                self.extract_server_buf()
+            # a record that cannot be handled must not discard what was decrypted before it
+            try:
+                if packet.ip_src == self.server_ip and packet.sport == self.server_port:
+                    self.server_packet_buffer.append(packet)
+                    self.extract_server_buf()
 
-                for record in self.server_tls_records:
-                    self.handle_tls_record(record, True)
+                    for record in self.server_tls_records:
+                        try:
+                            self.handle_tls_record(record, True)
+                        except Exception as e:
+                            logging.warning(f"Could not handle TLS record: {e}")
 
-                self.server_tls_records.clear()
-            else:
-                self.client_packet_buffer.append(packet)
-                self.extract_client_buf()
+                    self.server_tls_records.clear()
+                else:
+                    self.client_packet_buffer.append(packet)
+                    self.extract_client_buf()
 
-                for record in self.client_tls_records:
-                    self.handle_tls_record(record, False)
+                    for record in self.client_tls_records:
+                        try:
+                            self.handle_tls_record(record, False)
+                        except Exception as e:
+                            logging.warning(f"Could not handle TLS record: {e}")
 
-                self.client_tls_records.clear()
+                    self.client_tls_records.clear()
+            except Exception as e:
+                logging.warning(f"Could not extract TLS records: {e}")
 
     def extract_server_buf(self):
         """Extracts packets from session which together contain complete TLS_Records"""
